@@ -153,7 +153,9 @@ def step(w, ri, tg):
             if n is root:
                 w.roots.remove(root)       # the whole (unknown-rooted) tree was discarded
     elif kind == "expand":
-        src = impl.build(impl.T("creator", None, [impl.T("individualName", None, [impl.T("surName", "x")])], [["id", "c1"]]))
+        # the referenced element may have nothing below it (an empty element carrying only an id)
+        src_kids = [] if rng.random() < 0.3 else [impl.T("individualName", None, [impl.T("surName", "x")])]
+        src = impl.build(impl.T("creator", None if src_kids or rng.random() < 0.5 else "text only", src_kids, [["id", "c1"]]))
         dst = impl.build(impl.T("contact", None, [impl.T("references", "c1")]))
         ds = Node("dataset"); ds.add_child(src); ds.add_child(dst)
         if rng.random() < 0.4:
